@@ -10,6 +10,9 @@
 //   rsmatrix_*    computeRSMatrix
 //   svd33*/svd44* jacobiSVD       eig33*/eig44*  jacobiEigenSolver, minEigenVector, maxEigenVector
 //   procrustes_*  procrustesRotationAndTranslation (weighted or not, with or without uniform scale)
+//   *_subnormal   m44 / m33 / rsmatrix families on matrices whose whole linear part is subnormal in T (uniform 2^k scaling)
+//   procrustes_*_scaled  the procrustes problems with all coordinates scaled exactly by 2^k (|k| <= 60), all weights by 2^j,
+//                 and clouds of small extent at a moderate offset (the problem is homogeneous)
 //
 // All oracles are evaluated in __float128 on the exact value of the (rounded) input matrix.
 #include "vpbt.h"
@@ -31,8 +34,8 @@ typedef QM<4> Q4;
 // development aid: worst observed error ratios (only with -DC12_MEASURE, never in the framework build)
 #ifdef C12_MEASURE
 #    include <atomic>
-static std::atomic<uint64_t> g_meas[96];
-static const char*           g_meas_name[96];
+static std::atomic<uint64_t> g_meas[192]; // ids 96.. : the same quantities in the subnormal / scaled sub-checks
+static const char*           g_meas_name[192];
 static void                  meas (int id, const char* name, double v)
 {
     if (!(v == v)) v = 1e300;
@@ -45,8 +48,8 @@ static struct MeasDump
 {
     ~MeasDump ()
     {
-        for (int i = 0; i < 96; ++i)
-            if (g_meas_name[i]) fprintf (stderr, "MEAS %-44s %.4g\n", g_meas_name[i], u2d (g_meas[i].load ()));
+        for (int i = 0; i < 192; ++i)
+            if (g_meas_name[i]) fprintf (stderr, "MEAS %3d %-44s %.4g\n", i, g_meas_name[i], u2d (g_meas[i].load ()));
     }
 } g_measdump;
 #    define MEAS(id, name, v) meas ((id), (name), (double) (v))
@@ -311,8 +314,10 @@ static inline Q2 compose_shr2 (const quad s[2], quad h, const Q2& R)
     H[1][0] = h;
     return S * H * R;
 }
-// worst |got-want| / max|row of want| over all slots (NaN -> huge)
-template <int N> static quad row_rel_err (const QM<N>& got, const QM<N>& want, int* wi = nullptr, int* wj = nullptr)
+// worst |got-want| / (max|row of want| + fl) over all slots (NaN -> huge).  fl is a magnitude floor: a slot of type T
+// carries an absolute uncertainty of max (eps*|x|, denorm_min), i.e. eps * max (|x|, smallest normal), so rows whose
+// entries are subnormal are measured relative to (row max + smallest normal).  fl = 0: purely relative.
+template <int N> static quad row_rel_err (const QM<N>& got, const QM<N>& want, int* wi = nullptr, int* wj = nullptr, quad fl = 0)
 {
     quad worst = 0;
     for (int i = 0; i < N; ++i)
@@ -320,6 +325,7 @@ template <int N> static quad row_rel_err (const QM<N>& got, const QM<N>& want, i
         quad rm = 0;
         for (int j = 0; j < N; ++j)
             rm = qmax (rm, qabs (want[i][j]));
+        rm += fl;
         for (int j = 0; j < N; ++j)
         {
             quad d = qabs (got[i][j] - want[i][j]);
@@ -371,18 +377,48 @@ enum
     LF_GIMBAL,
     LF_MANYZERO,
     LF_MIXEDSIGN,
-    LF_ARBITRARY
+    LF_ARBITRARY,
+    LF_SUBNORMAL,
+    LF_BELOW_RECIP_MAX
 };
-#define LF_LABELS "negative_determinant", "cond_gt_10", "cond_gt_1000", "tiny_scale_row", "magnitude_2^20_off_unit", "sheared", "xyz_gimbal_rotation", "five_or_more_zero_entries", "mixed_sign_scales", "arbitrary_linear_part"
+#define LF_LABELS "negative_determinant", "cond_gt_10", "cond_gt_1000", "tiny_scale_row", "magnitude_2^20_off_unit", "sheared", "xyz_gimbal_rotation", "five_or_more_zero_entries", "mixed_sign_scales", "arbitrary_linear_part", "all_linear_entries_subnormal", "largest_entry_below_1/max"
 
 template <class T> struct Aff44
 {
     Matrix44<T> M;
     Q3          L;     // exact value of the rounded linear part
     double      kappa; // row-equilibrated condition number
-    bool        negdet, tinyrow, bigmag, sheared, gimbal, manyzero, mixedsign, arbitrary;
+    bool        negdet, tinyrow, bigmag, sheared, gimbal, manyzero, mixedsign, arbitrary, subnormal, belowrecip;
     int         lcls;
 };
+
+// Uniform power-of-two scaling that puts the largest entry of an NxN linear part at 2^e with e drawn from
+// [denorm_min exponent + 6, smallest normal exponent + 2]: the whole linear part is then (nearly always) subnormal
+// in T, the largest entry keeps at least 7 significant bits.  The rounded matrix is what the functions see; its
+// conditioning is evaluated after rounding by the caller.
+template <class T, int N> static void scale_to_subnormal (vp::Src& s, QM<N>& Lq)
+{
+    quad mx = 0;
+    for (int i = 0; i < N; ++i)
+        for (int j = 0; j < N; ++j)
+            mx = qmax (mx, qabs (Lq[i][j]));
+    if (!(mx > 0)) return;
+    const int elo = FInfo<T>::minexp - FInfo<T>::mant + 1 + 6, ehi = FInfo<T>::minexp + 2;
+    int       e   = (int) s.range (elo, ehi);
+    quad      f   = q2pow (e - std::ilogb ((double) mx));
+    for (int i = 0; i < N; ++i)
+        for (int j = 0; j < N; ++j)
+            Lq[i][j] *= f;
+}
+template <class T, int N, class M> static void subnormal_flags (const M& m, bool& allsub, bool& belowrecip)
+{
+    T mx = 0;
+    for (int i = 0; i < N; ++i)
+        for (int j = 0; j < N; ++j)
+            mx = std::max (mx, (T) std::fabs (m[i][j]));
+    allsub     = mx < std::numeric_limits<T>::min ();
+    belowrecip = (quad) mx * (quad) std::numeric_limits<T>::max () < 1; // 1/mx is not representable
+}
 
 template <class T> static void gen_translation (vp::Src& s, T* t, int n)
 {
@@ -398,10 +434,11 @@ template <class T> static void gen_translation (vp::Src& s, T* t, int n)
 }
 
 // linear part classes: 0 S*H*R from factors, 1 U*diag*V^T with graded conditioning, 2 arbitrary entries, 3 signed permutation * scales (+ one shear)
-template <class T> static void gen_affine44 (vp::Ctx& c, Aff44<T>& a, int force_cls = -1)
+// subn: instead of the tiny row / global magnitude options the whole linear part is scaled into the subnormal range of T.
+template <class T> static void gen_affine44 (vp::Ctx& c, Aff44<T>& a, int force_cls = -1, bool subn = false)
 {
     vp::Src& s = c.s;
-    a.negdet = a.tinyrow = a.bigmag = a.sheared = a.gimbal = a.manyzero = a.mixedsign = a.arbitrary = false;
+    a.negdet = a.tinyrow = a.bigmag = a.sheared = a.gimbal = a.manyzero = a.mixedsign = a.arbitrary = a.subnormal = a.belowrecip = false;
     Q3  Lq;
     int cls = force_cls >= 0 ? force_cls : (int) s.below (4);
     a.lcls  = cls;
@@ -478,22 +515,27 @@ template <class T> static void gen_affine44 (vp::Ctx& c, Aff44<T>& a, int force_
         }
     }
     // one row scaled down ("tiny scale"), global power-of-two magnitude
-    if (rare (s, 32))
+    if (subn)
+        scale_to_subnormal<T, 3> (s, Lq);
+    else
     {
-        int  i = (int) s.below (3);
-        quad f = q2pow (-(int) s.range (8, TT<T>::rexp ()));
-        for (int j = 0; j < 3; ++j)
-            Lq[i][j] *= f;
-        a.tinyrow = true;
-    }
-    if (rare (s, 64))
-    {
-        int  k = (int) s.range (-TT<T>::gexp (), TT<T>::gexp ());
-        quad f = q2pow (k);
-        for (int i = 0; i < 3; ++i)
+        if (rare (s, 32))
+        {
+            int  i = (int) s.below (3);
+            quad f = q2pow (-(int) s.range (8, TT<T>::rexp ()));
             for (int j = 0; j < 3; ++j)
                 Lq[i][j] *= f;
-        a.bigmag = k >= 20 || k <= -20;
+            a.tinyrow = true;
+        }
+        if (rare (s, 64))
+        {
+            int  k = (int) s.range (-TT<T>::gexp (), TT<T>::gexp ());
+            quad f = q2pow (k);
+            for (int i = 0; i < 3; ++i)
+                for (int j = 0; j < 3; ++j)
+                    Lq[i][j] *= f;
+            a.bigmag = k >= 20 || k <= -20;
+        }
     }
     a.M.makeIdentity ();
     int nzero = 0;
@@ -504,6 +546,7 @@ template <class T> static void gen_affine44 (vp::Ctx& c, Aff44<T>& a, int force_
             if (a.M[i][j] == 0) ++nzero;
         }
     a.manyzero = nzero >= 5;
+    if (subn) subnormal_flags<T, 3> (a.M, a.subnormal, a.belowrecip);
     T t[3];
     gen_translation<T> (s, t, 3);
     for (int j = 0; j < 3; ++j)
@@ -526,6 +569,8 @@ template <class T> static void label_aff (vp::Ctx& c, const Aff44<T>& a)
     if (a.manyzero) c.label (LF_MANYZERO);
     if (a.mixedsign) c.label (LF_MIXEDSIGN);
     if (a.arbitrary) c.label (LF_ARBITRARY);
+    if (a.subnormal) c.label (LF_SUBNORMAL);
+    if (a.belowrecip) c.label (LF_BELOW_RECIP_MAX);
     c.nt (a.kappa > 10 || a.negdet);
 }
 
@@ -549,13 +594,13 @@ static const double K_ORTHO  = 12; // R*R^T - I and det R - 1
 
 template <class T> static std::string v3s (const Vec3<T>& v) { return vstr (v, 3); }
 
-template <class T> static void m44_factor_case (vp::Ctx& c)
+template <class T> static void m44_factor_case (vp::Ctx& c, bool subn = false)
 {
     typedef Matrix44<T> M44;
     typedef Vec3<T>     V3;
     vp::Src&            s = c.s;
     Aff44<T>            a;
-    gen_affine44<T> (c, a);
+    gen_affine44<T> (c, a, -1, subn);
     const M44& M   = a.M;
     const Q3&  L   = a.L;
     const bool exc = s.coin ();
@@ -566,8 +611,12 @@ template <class T> static void m44_factor_case (vp::Ctx& c)
     const quad rel  = (quad) K_RECOMP * ke;
     const quad rela = (quad) K_ANGLES * ke;
     const quad relo = (quad) K_ORTHO * ke;
-    const int  mo   = TT<T>::off ();
+    const int  mo   = TT<T>::off () + (subn ? 96 : 0);
     int        wi = 0, wj = 0;
+    // Recomposition errors are measured relative to (row max + smallest normal of T): the returned scale is a value of
+    // type T, so when the rows are subnormal it carries an absolute error of denorm_min/2 = eps/2 * smallest normal
+    // (times up to kappa_eq through |row|/|scale|).  For rows in the normal range this changes nothing.
+    const quad fl = q2pow (FInfo<T>::minexp);
 
     // (a) extractAndRemoveScalingAndShear: scale, shear and the residual rotation
     M44 R0 = M;
@@ -580,6 +629,16 @@ template <class T> static void m44_factor_case (vp::Ctx& c)
     C12_CATCH (c, "m44-core/nondegenerate-threw", "extractAndRemoveScalingAndShear(" << mstr (M, 4) << ")")
     const quad s0q[3] = { (quad) s0[0], (quad) s0[1], (quad) s0[2] }, h0q[3] = { (quad) h0[0], (quad) h0[1], (quad) h0[2] };
     const Q3   R0q = lin_of<3> (R0);
+    {
+        bool fin = true;
+        for (int i = 0; i < 3; ++i)
+        {
+            if (!std::isfinite (s0[i]) || !std::isfinite (h0[i])) fin = false;
+            for (int j = 0; j < 3; ++j)
+                if (!std::isfinite (R0[i][j])) fin = false;
+        }
+        VP_REQUIRE (c, fin, "m44-core/nonfinite-factor", "extractAndRemoveScalingAndShear(" << mstr (M, 4) << ") returned true with scale " << v3s (s0) << " shear " << v3s (h0) << " rotation " << mstr (R0q, 3));
+    }
     auto       rest_untouched = [&] (const M44& X) {
         for (int k = 0; k < 4; ++k)
             if (!same (X[3][k], M[3][k]) || !same (X[k][3], M[k][3])) return false;
@@ -595,7 +654,7 @@ template <class T> static void m44_factor_case (vp::Ctx& c)
     };
     auto check_recomp = [&] (const quad* sq, const quad* hq, const Q3& Rq, quad lim, const char* fn, const char* key, int mid, const char* mname) {
         Q3   got = compose_shr3 (sq, hq, Rq);
-        quad e   = row_rel_err (got, L, &wi, &wj);
+        quad e   = row_rel_err (got, L, &wi, &wj, fl);
         MEAS (mid, mname, e / ke);
         VP_REQUIRE (c, e <= lim, key, fn << ": S*H*R differs from the linear part of " << mstr (M, 4) << " at [" << wi << "][" << wj << "]: got " << qstr (got[wi][wj]) << " want " << qstr (L[wi][wj]) << " (relative to row max " << qstr (e) << ", limit " << qstr (lim) << "); s=(" << qstr (sq[0]) << " " << qstr (sq[1]) << " " << qstr (sq[2]) << ") h=(" << qstr (hq[0]) << " " << qstr (hq[1]) << " " << qstr (hq[2]) << ") R=" << mstr (Rq, 3));
     };
@@ -691,7 +750,7 @@ template <class T> static void m44_factor_case (vp::Ctx& c)
             for (int i = 0; i < 3; ++i)
                 for (int j = 0; j < 3; ++j)
                     got[i][j] *= s0q[i];
-            quad e = row_rel_err (got, L, &wi, &wj);
+            quad e = row_rel_err (got, L, &wi, &wj, fl);
             MEAS (mo + 7, "m44 S*sansScaling / (kappa eps)", e / ke);
             VP_REQUIRE (c, e <= rela, KR[k], FN[k] << " of " << mstr (M, 4) << " = " << mstr (X[k], 4) << ": scale*result differs from M at [" << wi << "][" << wj << "] got " << qstr (got[wi][wj]) << " want " << qstr (L[wi][wj]) << " (relative " << qstr (e) << " limit " << qstr (rela) << "), scale=" << v3s (s0));
             for (int j = 0; j < 3; ++j)
@@ -843,6 +902,24 @@ VP_RANDOM (m44d_factor, 300000, 6000000, C12_RULE_M44) { m44_factor_case<double>
 VP_LABELS (m44d_factor, LF_LABELS)
 VP_REQUIRE_LABELS (m44d_factor, "negative_determinant", "cond_gt_10", "cond_gt_1000", "tiny_scale_row", "magnitude_2^20_off_unit", "sheared", "xyz_gimbal_rotation", "five_or_more_zero_entries", "mixed_sign_scales", "arbitrary_linear_part")
 
+// Uniformly scaled affine matrices whose linear part lies in the subnormal range of T.  Same functions, same oracle, same
+// multiples of kappa_eq*eps (errors relative to row max + smallest normal, see m44_factor_case).
+// Measured worst on the unchanged tree (1.2e6 cases per type, multiples of kappa_eq*eps, float / double):
+//   recomposition through the returned rotation matrix  3-D 0.88 / 0.87   2-D 0.68 / 0.83
+//   recomposition through returned angles (extractSHRT) 3-D 1.36 / 1.17   2-D 1.07 / 1.08
+//   scale * sansScaling / removeScaling                 3-D 1.36 / 1.33   2-D 1.11 / 1.08
+//   max|R R^T - I|                                      3-D 2.02 / 2.51   2-D 2.01 / 1.88
+//   |det R - 1|                                         3-D 2.25 / 2.08   2-D 1.55 / 1.47
+// (limits K_RECOMP = 8, K_ANGLES = 12, K_ORTHO = 12 as for the normal range); about 5 % of the cases are discarded
+// because rounding to a few significant bits left the matrix nearly singular.
+#define C12_RULE_M44SUB "affine Matrix44 from the 4 classes of m44*_factor, the linear part multiplied by the power of two that puts its largest entry at 2^e, e uniform in [denorm_min exponent + 6, smallest normal exponent + 2] (all nine entries subnormal in nearly every case, for most of them below 1/max so that a reciprocal would overflow), then rounded to the type; every function must report success and return finite factors; oracle = quad recomposition per slot, tolerance K*kappa_eq*eps relative to (row max + smallest normal); non-trivial = row-equilibrated condition number > 10 or negative determinant"
+VP_RANDOM (m44f_subnormal, 60000, 1200000, C12_RULE_M44SUB) { m44_factor_case<float> (c, true); }
+VP_LABELS (m44f_subnormal, LF_LABELS)
+VP_REQUIRE_LABELS (m44f_subnormal, "negative_determinant", "cond_gt_10", "sheared", "mixed_sign_scales", "arbitrary_linear_part", "all_linear_entries_subnormal", "largest_entry_below_1/max")
+VP_RANDOM (m44d_subnormal, 60000, 1200000, C12_RULE_M44SUB) { m44_factor_case<double> (c, true); }
+VP_LABELS (m44d_subnormal, LF_LABELS)
+VP_REQUIRE_LABELS (m44d_subnormal, "negative_determinant", "cond_gt_10", "sheared", "mixed_sign_scales", "arbitrary_linear_part", "all_linear_entries_subnormal", "largest_entry_below_1/max")
+
 #define C12_RULE_ORDER "S*H*R*T with R built from an angle triple in one of the 24 Euler orders (middle angle 0.02..0.5 rad away from that order's gimbal configuration); rotation oracle = product of elementary quad rotations decoded from the order's documented bit legend; tolerance K*(kappa_eq + 1/gimbal_measure)*eps; non-trivial = order other than XYZ"
 VP_RANDOM (m44f_order, 300000, 6000000, C12_RULE_ORDER) { m44_order_case<float> (c); }
 VP_LABELS (m44f_order, LO_LABELS)
@@ -863,22 +940,24 @@ enum
     L2_BIGMAG,
     L2_SHEARED,
     L2_ZEROS,
-    L2_ROT_AND_TRANSLATION
+    L2_ROT_AND_TRANSLATION,
+    L2_SUBNORMAL,
+    L2_BELOW_RECIP_MAX
 };
-#define L2_LABELS "negative_determinant", "cond_gt_10", "cond_gt_1000", "tiny_scale_row", "magnitude_2^20_off_unit", "sheared", "two_or_more_zero_entries", "rotated_and_translated"
+#define L2_LABELS "negative_determinant", "cond_gt_10", "cond_gt_1000", "tiny_scale_row", "magnitude_2^20_off_unit", "sheared", "two_or_more_zero_entries", "rotated_and_translated", "all_linear_entries_subnormal", "largest_entry_below_1/max"
 
 template <class T> struct Aff33
 {
     Matrix33<T> M;
     Q2          L;
     double      kappa;
-    bool        negdet, tinyrow, bigmag, sheared, zeros;
+    bool        negdet, tinyrow, bigmag, sheared, zeros, subnormal, belowrecip;
     int         lcls;
 };
-template <class T> static void gen_affine33 (vp::Ctx& c, Aff33<T>& a)
+template <class T> static void gen_affine33 (vp::Ctx& c, Aff33<T>& a, bool subn = false)
 {
     vp::Src& s = c.s;
-    a.negdet = a.tinyrow = a.bigmag = a.sheared = a.zeros = false;
+    a.negdet = a.tinyrow = a.bigmag = a.sheared = a.zeros = a.subnormal = a.belowrecip = false;
     Q2  Lq;
     int cls = (int) s.below (4);
     a.lcls  = cls;
@@ -932,22 +1011,27 @@ template <class T> static void gen_affine33 (vp::Ctx& c, Aff33<T>& a)
             break;
         }
     }
-    if (rare (s, 32))
+    if (subn)
+        scale_to_subnormal<T, 2> (s, Lq);
+    else
     {
-        int  i = (int) s.below (2);
-        quad f = q2pow (-(int) s.range (8, TT<T>::rexp ()));
-        for (int j = 0; j < 2; ++j)
-            Lq[i][j] *= f;
-        a.tinyrow = true;
-    }
-    if (rare (s, 64))
-    {
-        int  k = (int) s.range (-TT<T>::gexp (), TT<T>::gexp ());
-        quad f = q2pow (k);
-        for (int i = 0; i < 2; ++i)
+        if (rare (s, 32))
+        {
+            int  i = (int) s.below (2);
+            quad f = q2pow (-(int) s.range (8, TT<T>::rexp ()));
             for (int j = 0; j < 2; ++j)
                 Lq[i][j] *= f;
-        a.bigmag = k >= 20 || k <= -20;
+            a.tinyrow = true;
+        }
+        if (rare (s, 64))
+        {
+            int  k = (int) s.range (-TT<T>::gexp (), TT<T>::gexp ());
+            quad f = q2pow (k);
+            for (int i = 0; i < 2; ++i)
+                for (int j = 0; j < 2; ++j)
+                    Lq[i][j] *= f;
+            a.bigmag = k >= 20 || k <= -20;
+        }
     }
     a.M.makeIdentity ();
     int nzero = 0;
@@ -958,6 +1042,7 @@ template <class T> static void gen_affine33 (vp::Ctx& c, Aff33<T>& a)
             if (a.M[i][j] == 0) ++nzero;
         }
     a.zeros = nzero >= 2;
+    if (subn) subnormal_flags<T, 2> (a.M, a.subnormal, a.belowrecip);
     T t[2];
     gen_translation<T> (s, t, 2);
     a.M[2][0] = t[0];
@@ -968,13 +1053,13 @@ template <class T> static void gen_affine33 (vp::Ctx& c, Aff33<T>& a)
     a.negdet = det (a.L) < 0;
 }
 
-template <class T> static void m33_factor_case (vp::Ctx& c)
+template <class T> static void m33_factor_case (vp::Ctx& c, bool subn = false)
 {
     typedef Matrix33<T> M33;
     typedef Vec2<T>     V2;
     vp::Src&            s = c.s;
     Aff33<T>            a;
-    gen_affine33<T> (c, a);
+    gen_affine33<T> (c, a, subn);
     const M33& M   = a.M;
     const Q2&  L   = a.L;
     const bool exc = s.coin ();
@@ -986,13 +1071,16 @@ template <class T> static void m33_factor_case (vp::Ctx& c)
     if (a.bigmag) c.label (L2_BIGMAG);
     if (a.sheared) c.label (L2_SHEARED);
     if (a.zeros) c.label (L2_ZEROS);
+    if (a.subnormal) c.label (L2_SUBNORMAL);
+    if (a.belowrecip) c.label (L2_BELOW_RECIP_MAX);
     c.nt (a.kappa > 10 || a.negdet);
     const quad ke   = (quad) a.kappa * (quad) TT<T>::eps ();
     const quad rel  = (quad) K_RECOMP * ke;
     const quad rela = (quad) K_ANGLES * ke;
     const quad relo = (quad) K_ORTHO * ke;
-    const int  mo   = TT<T>::off ();
+    const int  mo   = TT<T>::off () + (subn ? 96 : 0);
     int        wi = 0, wj = 0;
+    const quad fl = q2pow (FInfo<T>::minexp); // see m44_factor_case
 
     M33 R0 = M;
     V2  s0;
@@ -1005,6 +1093,7 @@ template <class T> static void m33_factor_case (vp::Ctx& c)
     C12_CATCH (c, "m33-core/nondegenerate-threw", "extractAndRemoveScalingAndShear(" << mstr (M, 3) << ")")
     const quad s0q[2] = { (quad) s0[0], (quad) s0[1] }, h0q = (quad) h0;
     const Q2   R0q = lin_of<2> (R0);
+    VP_REQUIRE (c, std::isfinite (s0[0]) && std::isfinite (s0[1]) && std::isfinite (h0) && std::isfinite (R0[0][0]) && std::isfinite (R0[0][1]) && std::isfinite (R0[1][0]) && std::isfinite (R0[1][1]), "m33-core/nonfinite-factor", "extractAndRemoveScalingAndShear(" << mstr (M, 3) << ") returned true with scale " << vstr (s0, 2) << " shear " << h0 << " rotation " << mstr (R0q, 2));
     auto       rest_untouched = [&] (const M33& X) {
         for (int k = 0; k < 3; ++k)
             if (!same (X[2][k], M[2][k]) || !same (X[k][2], M[k][2])) return false;
@@ -1020,7 +1109,7 @@ template <class T> static void m33_factor_case (vp::Ctx& c)
     };
     auto check_recomp = [&] (const quad* sq, quad hq, const Q2& Rq, quad lim, const char* fn, const char* key, int mid, const char* mname) {
         Q2   got = compose_shr2 (sq, hq, Rq);
-        quad e   = row_rel_err (got, L, &wi, &wj);
+        quad e   = row_rel_err (got, L, &wi, &wj, fl);
         MEAS (mid, mname, e / ke);
         VP_REQUIRE (c, e <= lim, key, fn << ": S*H*R differs from the linear part of " << mstr (M, 3) << " at [" << wi << "][" << wj << "]: got " << qstr (got[wi][wj]) << " want " << qstr (L[wi][wj]) << " (relative to row max " << qstr (e) << ", limit " << qstr (lim) << "); s=(" << qstr (sq[0]) << " " << qstr (sq[1]) << ") h=" << qstr (hq) << " R=" << mstr (Rq, 2));
     };
@@ -1109,7 +1198,7 @@ template <class T> static void m33_factor_case (vp::Ctx& c)
             for (int i = 0; i < 2; ++i)
                 for (int j = 0; j < 2; ++j)
                     got[i][j] *= s0q[i];
-            quad e = row_rel_err (got, L, &wi, &wj);
+            quad e = row_rel_err (got, L, &wi, &wj, fl);
             MEAS (mo + 23, "m33 S*sansScaling / (kappa eps)", e / ke);
             VP_REQUIRE (c, e <= rela, KR[k], FN[k] << " of " << mstr (M, 3) << " = " << mstr (X[k], 3) << ": scale*result differs from M at [" << wi << "][" << wj << "] got " << qstr (got[wi][wj]) << " want " << qstr (L[wi][wj]) << " (relative " << qstr (e) << " limit " << qstr (rela) << "), scale=" << vstr (s0, 2));
             // translation must be the input's translation
@@ -1152,6 +1241,14 @@ VP_REQUIRE_LABELS (m33f_factor, "negative_determinant", "cond_gt_10", "cond_gt_1
 VP_RANDOM (m33d_factor, 400000, 8000000, C12_RULE_M33) { m33_factor_case<double> (c); }
 VP_LABELS (m33d_factor, L2_LABELS)
 VP_REQUIRE_LABELS (m33d_factor, "negative_determinant", "cond_gt_10", "cond_gt_1000", "tiny_scale_row", "magnitude_2^20_off_unit", "sheared", "two_or_more_zero_entries")
+
+#define C12_RULE_M33SUB "affine Matrix33 (2-D) from the 4 classes of m33*_factor, the linear part multiplied by the power of two that puts its largest entry at 2^e, e uniform in [denorm_min exponent + 6, smallest normal exponent + 2], then rounded to the type; every function must report success and return finite factors; oracle = quad recomposition per slot, tolerance K*kappa_eq*eps relative to (row max + smallest normal); non-trivial = kappa_eq > 10 or negative determinant"
+VP_RANDOM (m33f_subnormal, 60000, 1200000, C12_RULE_M33SUB) { m33_factor_case<float> (c, true); }
+VP_LABELS (m33f_subnormal, L2_LABELS)
+VP_REQUIRE_LABELS (m33f_subnormal, "negative_determinant", "cond_gt_10", "sheared", "all_linear_entries_subnormal", "largest_entry_below_1/max")
+VP_RANDOM (m33d_subnormal, 60000, 1200000, C12_RULE_M33SUB) { m33_factor_case<double> (c, true); }
+VP_LABELS (m33d_subnormal, L2_LABELS)
+VP_REQUIRE_LABELS (m33d_subnormal, "negative_determinant", "cond_gt_10", "sheared", "all_linear_entries_subnormal", "largest_entry_below_1/max")
 
 // ===================================================================================================
 // Degenerate input is reported, never decomposed
@@ -1630,23 +1727,29 @@ enum
     LR_KEEP_NONE,
     LR_NEGDET_A,
     LR_NEGDET_B,
-    LR_SHEARED
+    LR_SHEARED,
+    LR_SUBNORMAL_A,
+    LR_SUBNORMAL_B
 };
-#define LR_LABELS "rotate_A_scale_A", "rotate_A_scale_B", "rotate_B_scale_A", "rotate_B_scale_B", "A_negative_determinant", "B_negative_determinant", "sheared_input"
+#define LR_LABELS "rotate_A_scale_A", "rotate_A_scale_B", "rotate_B_scale_A", "rotate_B_scale_B", "A_negative_determinant", "B_negative_determinant", "sheared_input", "A_linear_part_subnormal", "B_linear_part_subnormal"
 static const double K_RS = 8; // x (kappa_A + kappa_B) eps, per slot relative to |scale|; measured worst over 1e6 cases per type: 1.17 (float) 1.27 (double)
-template <class T> static void rsmatrix_case (vp::Ctx& c)
+// subn: the linear part of A, of B or of both is scaled into the subnormal range of T
+template <class T> static void rsmatrix_case (vp::Ctx& c, bool subn = false)
 {
     typedef Matrix44<T> M44;
     vp::Src&            s = c.s;
     Aff44<T>            A, B;
-    gen_affine44<T> (c, A);
-    gen_affine44<T> (c, B);
+    int                 which = subn ? 1 + (int) s.below (3) : 0; // bit 0: A, bit 1: B
+    gen_affine44<T> (c, A, -1, (which & 1) != 0);
+    gen_affine44<T> (c, B, -1, (which & 2) != 0);
     bool kr = s.coin (), ks = s.coin ();
     VP_NOTE (c, "computeRSMatrix<" << TT<T>::nm () << ">(keepRotateA=" << kr << ", keepScaleA=" << ks << ", A=" << mstr (A.M, 4) << ", B=" << mstr (B.M, 4) << ")");
     c.label (kr ? (ks ? LR_KEEP_BOTH : LR_KEEP_ROT) : (ks ? LR_KEEP_SCALE : LR_KEEP_NONE));
     if (A.negdet) c.label (LR_NEGDET_A);
     if (B.negdet) c.label (LR_NEGDET_B);
     if (A.sheared || B.sheared) c.label (LR_SHEARED);
+    if (A.subnormal) c.label (LR_SUBNORMAL_A);
+    if (B.subnormal) c.label (LR_SUBNORMAL_B);
     c.nt (!(kr && ks));
     quad sa[3], ha[3], sb[3], hb[3];
     Q3   Ra, Rb;
@@ -1668,14 +1771,17 @@ template <class T> static void rsmatrix_case (vp::Ctx& c)
         for (int j = 0; j < 3; ++j)
             want[i][j] = ss[i] * Rs[i][j];
     const quad unit = ((quad) A.kappa + (quad) B.kappa) * (quad) TT<T>::eps ();
+    // a subnormal scale (and the slots of the result built from it) carries an absolute error of denorm_min/2 =
+    // eps/2 * smallest normal: measure relative to |scale| + smallest normal (no effect on scales in the normal range)
+    const quad fl = q2pow (FInfo<T>::minexp);
     // rows of a rotation have entries that can be arbitrarily small: compare relative to |scale| (the row's length)
     for (int i = 0; i < 3; ++i)
         for (int j = 0; j < 3; ++j)
         {
             quad d = qabs (got[i][j] - want[i][j]);
             if (!(d == d)) d = (quad) 1e300;
-            MEAS (TT<T>::off () + 26, "computeRSMatrix / ((kA+kB) eps |s|)", d / (unit * qabs (ss[i])));
-            VP_REQUIRE (c, d <= (quad) K_RS * unit * qabs (ss[i]), "computeRSMatrix/scale-rotation-slot", "computeRSMatrix(keepRotateA=" << kr << ", keepScaleA=" << ks << ") slot [" << i << "][" << j << "] = " << qstr (got[i][j]) << ", S*R of the selected factors = " << qstr (want[i][j]) << " (scale " << qstr (ss[i]) << "); A=" << mstr (A.M, 4) << " B=" << mstr (B.M, 4) << " result=" << mstr (X, 4));
+            MEAS (TT<T>::off () + (subn ? 96 : 0) + 26, "computeRSMatrix / ((kA+kB) eps |s|)", d / (unit * (qabs (ss[i]) + fl)));
+            VP_REQUIRE (c, d <= (quad) K_RS * unit * (qabs (ss[i]) + fl), "computeRSMatrix/scale-rotation-slot", "computeRSMatrix(keepRotateA=" << kr << ", keepScaleA=" << ks << ") slot [" << i << "][" << j << "] = " << qstr (got[i][j]) << ", S*R of the selected factors = " << qstr (want[i][j]) << " (scale " << qstr (ss[i]) << "); A=" << mstr (A.M, 4) << " B=" << mstr (B.M, 4) << " result=" << mstr (X, 4));
         }
     for (int j = 0; j < 3; ++j)
     {
@@ -1692,6 +1798,15 @@ VP_REQUIRE_LABELS (rsmatrix_f, "rotate_A_scale_A", "rotate_A_scale_B", "rotate_B
 VP_RANDOM (rsmatrix_d, 250000, 5000000, C12_RULE_RS) { rsmatrix_case<double> (c); }
 VP_LABELS (rsmatrix_d, LR_LABELS)
 VP_REQUIRE_LABELS (rsmatrix_d, "rotate_A_scale_A", "rotate_A_scale_B", "rotate_B_scale_A", "rotate_B_scale_B", "A_negative_determinant", "B_negative_determinant", "sheared_input")
+
+// measured worst over 8e5 cases per type: 0.99 (float) 1.34 (double) of (kappa_A+kappa_B)*eps*(|scale| + smallest normal); limit K_RS = 8
+#define C12_RULE_RSSUB "as rsmatrix_*, with the linear part of A, of B or of both scaled by a power of two into the subnormal range of the type (largest entry at 2^e, e from denorm_min exponent + 6 to smallest normal exponent + 2); tolerance K*(kappa_A+kappa_B)*eps*(|scale| + smallest normal); non-trivial = at least one factor taken from B"
+VP_RANDOM (rsmatrix_f_subnormal, 40000, 800000, C12_RULE_RSSUB) { rsmatrix_case<float> (c, true); }
+VP_LABELS (rsmatrix_f_subnormal, LR_LABELS)
+VP_REQUIRE_LABELS (rsmatrix_f_subnormal, "rotate_A_scale_A", "rotate_A_scale_B", "rotate_B_scale_A", "rotate_B_scale_B", "A_linear_part_subnormal", "B_linear_part_subnormal")
+VP_RANDOM (rsmatrix_d_subnormal, 40000, 800000, C12_RULE_RSSUB) { rsmatrix_case<double> (c, true); }
+VP_LABELS (rsmatrix_d_subnormal, LR_LABELS)
+VP_REQUIRE_LABELS (rsmatrix_d_subnormal, "rotate_A_scale_A", "rotate_A_scale_B", "rotate_B_scale_A", "rotate_B_scale_B", "A_linear_part_subnormal", "B_linear_part_subnormal")
 
 // ===================================================================================================
 // jacobiSVD, jacobiEigenSolver, minEigenVector, maxEigenVector
@@ -1928,6 +2043,11 @@ template <class T, int N> static void gen_general (vp::Src& s, typename MatN<T, 
 static const double K_SVD_ORTHO  = 96;
 static const double K_SVD_RECOMP = 192;
 
+// Not asserted: jacobiSVD with an output (U or V) that is the same object as the input A.  The header documents no
+// aliasing guarantee (A is a const reference, U, S, V are "outputs"); the library's own caller
+// (procrustesRotationAndTranslation), testTinySVD, testJacobiEigenSolver and the PyImath binding all pass three distinct
+// objects.  That the current implementation copies A before writing U and V is an implementation detail, so the
+// aliased spellings jacobiSVD (M, M, S, V) / (M, U, S, M) are outside the property's domain and are not generated.
 template <class T, int N> static void svd_case (vp::Ctx& c)
 {
     typedef typename MatN<T, N>::M Mat;
@@ -2252,9 +2372,14 @@ enum
     LP_PERTURBED,
     LP_MIRRORED,
     LP_EMPTY,
-    LP_CLUSTERED
+    LP_CLUSTERED,
+    LP_SMALL_EXTENT,
+    LP_SCALED_DOWN,
+    LP_SCALED_UP,
+    LP_WEIGHTS_SCALED,
+    LP_SCALING_TINY_SPREAD
 };
-#define LP_LABELS "one_point", "two_points", "three_or_more_points", "more_than_16_points", "collinear", "coplanar", "three_noncollinear_points", "weighted", "some_zero_weight", "doScaling", "exact_relation", "perturbed_relation", "mirrored_relation", "no_points_or_zero_weight_sum", "clustered_far_from_origin"
+#define LP_LABELS "one_point", "two_points", "three_or_more_points", "more_than_16_points", "collinear", "coplanar", "three_noncollinear_points", "weighted", "some_zero_weight", "doScaling", "exact_relation", "perturbed_relation", "mirrored_relation", "no_points_or_zero_weight_sum", "clustered_far_from_origin", "small_extent_at_moderate_offset", "coordinates_scaled_by_2^-20_or_less", "coordinates_scaled_by_2^20_or_more", "weights_scaled_by_2^+-10_or_more", "doScaling_weighted_spread_of_A_below_1e-16"
 
 struct PStats
 {
@@ -2291,7 +2416,12 @@ static void p_topt (const PStats& p, const Q3& L, quad t[3])
 static const double K_PROC       = 1;  // multiplies every rounding-error estimate inside the slack (the estimates are worst-case bounds); measured worst (f(X)-f(X'))/slack over 6e5 cases per type: 0.04 (float) 0.02 (double)
 static const double K_PROC_ORTHO = 96; // x eps(double): L*L^T = s^2 I ; measured worst 18.0
 
-template <class T> static void procrustes_case (vp::Ctx& c)
+// scaled: the problem is homogeneous - multiplying every point of both sets by 2^k (exactly) leaves the rotation and the
+// scale of the answer unchanged and multiplies the translation by 2^k; multiplying every weight by 2^j changes nothing.
+// The scaled mode generates the same problems as the plain mode (plus clouds of small extent at a moderate offset),
+// then applies such a 2^k (|k| <= 60, far from underflow / overflow of T and of the double accumulation) and 2^j
+// (|j| <= 30).  The oracle is the same: it evaluates the residual of the scaled problem in quad.
+template <class T> static void procrustes_case (vp::Ctx& c, bool scaled = false)
 {
     typedef Vec3<T> V3;
     vp::Src&        s = c.s;
@@ -2309,7 +2439,7 @@ template <class T> static void procrustes_case (vp::Ctx& c)
         default: N = rare (s, 64) ? (int) s.range (17, 64) : (int) s.range (3, 6); break;
     }
     bool doScale = s.coin ();
-    int  cfg     = (int) s.below (5); // 0 general, 1 collinear, 2 coplanar, 3 integer lattice, 4 clustered far from the origin
+    int  cfg     = (int) s.below (scaled ? 6 : 5); // 0 general, 1 collinear, 2 coplanar, 3 integer lattice, 4 clustered far from the origin, 5 (scaled mode) small extent at a moderate offset
     int  wmode   = (int) s.below (4); // 0 unweighted overload, 1 all ones, 2 {0} u [0.25,4], 3 mostly as 2, rarely all zero
     int  rel     = (int) s.below (3); // 0 exact, 1 perturbed, 2 mirrored
     std::vector<V3> A (N ? N : 1), B (N ? N : 1);
@@ -2324,6 +2454,14 @@ template <class T> static void procrustes_case (vp::Ctx& c)
     if (cfg == 4)
         for (int k = 0; k < 3; ++k)
             p0[k] = (quad) s.uniform (-1000, 1000);
+    double ext5 = 1; // extent of the cloud of configuration 5: 2^-6 .. 2^-16 (float) / 2^-40 (double), around a centre of magnitude <= 2
+    if (cfg == 5)
+    {
+        int e5 = (int) s.range (6, sizeof (T) == 4 ? 16 : 40);
+        ext5   = std::ldexp (1.0, -e5);
+        for (int k = 0; k < 3; ++k)
+            p0[k] = (quad) s.uniform (-2, 2);
+    }
     for (int i = 0; i < N; ++i)
     {
         quad u = (quad) s.uniform (-10, 10), v = (quad) s.uniform (-10, 10);
@@ -2336,6 +2474,7 @@ template <class T> static void procrustes_case (vp::Ctx& c)
                 case 1: x = p0[k] + u * d1[k]; break;
                 case 2: x = p0[k] + u * d1[k] + v * d2[k]; break;
                 case 3: x = (quad) s.range (-3, 3); break;
+                case 5: x = p0[k] + (quad) (ext5 * s.uniform (-1, 1)); break;
                 default: x = p0[k] + (quad) s.uniform (-1e-2, 1e-2); break;
             }
             A[i][k] = (T) x;
@@ -2354,7 +2493,7 @@ template <class T> static void procrustes_case (vp::Ctx& c)
     // the uniform scale is undetermined when all weighted A points coincide: keep two distinct weighted points
     if (doScale && N >= 2 && !allzero_w)
     {
-        if (A[0] == A[1]) A[1][0] += (T) (cfg == 4 ? 0.0078125 : 1);
+        if (A[0] == A[1]) A[1][0] += (T) (cfg == 4 ? 0.0078125 : (cfg == 5 ? ext5 : 1));
         if (wmode >= 2)
         {
             if (Wt[0] == 0) Wt[0] = (T) 1;
@@ -2378,7 +2517,7 @@ template <class T> static void procrustes_case (vp::Ctx& c)
         F[k][k] = -1;
         Lin     = F * R0;
     }
-    double noise = rel == 1 ? std::pow (10.0, -s.uniform (0, 4)) * (cfg == 4 ? 1e-2 : 10.0) : 0.0;
+    double noise = rel == 1 ? std::pow (10.0, -s.uniform (0, 4)) * (cfg == 4 ? 1e-2 : (cfg == 5 ? ext5 : 10.0)) : 0.0;
     for (int i = 0; i < N; ++i)
         for (int k = 0; k < 3; ++k)
         {
@@ -2388,6 +2527,26 @@ template <class T> static void procrustes_case (vp::Ctx& c)
             if (rel == 1) x += (quad) (noise * s.uniform (-1, 1));
             B[i][k] = (T) x;
         }
+    // ---- scaled mode: exact power-of-two scaling of all coordinates and of all weights
+    int kc = 0, kw = 0;
+    if (scaled)
+    {
+        kc = (int) s.range (-60, 60);
+        kw = (int) s.range (-30, 30);
+        for (int i = 0; i < N; ++i)
+        {
+            for (int k = 0; k < 3; ++k)
+            {
+                T a2 = (T) std::ldexp (A[i][k], kc), b2 = (T) std::ldexp (B[i][k], kc);
+                if (std::ldexp (a2, -kc) != A[i][k] || std::ldexp (b2, -kc) != B[i][k] || !std::isfinite (a2) || !std::isfinite (b2)) c.discard ("power-of-two scaling of a coordinate is not exact");
+                A[i][k] = a2;
+                B[i][k] = b2;
+            }
+            if (wmode != 0) Wt[i] = (T) std::ldexp (Wt[i], kw);
+        }
+        for (int k = 0; k < 3; ++k)
+            t0[k] *= q2pow (kc);
+    }
     // ---- call
     M44d X;
     if (wmode == 0)
@@ -2433,6 +2592,10 @@ template <class T> static void procrustes_case (vp::Ctx& c)
     if (rel == 2) c.label (LP_MIRRORED);
     if (empty) c.label (LP_EMPTY);
     if (cfg == 4) c.label (LP_CLUSTERED);
+    if (cfg == 5) c.label (LP_SMALL_EXTENT);
+    if (scaled && kc <= -20) c.label (LP_SCALED_DOWN);
+    if (scaled && kc >= 20) c.label (LP_SCALED_UP);
+    if (scaled && wmode != 0 && (kw <= -10 || kw >= 10)) c.label (LP_WEIGHTS_SCALED);
     for (int k = 0; k < 4; ++k)
         VP_REQUIRE (c, X[k][3] == (k == 3 ? 1.0 : 0.0), "procrustes/last-column", "procrustes result " << mstr (X, 4) << " last column is not (0,0,0,1)");
     if (empty)
@@ -2487,6 +2650,7 @@ template <class T> static void procrustes_case (vp::Ctx& c)
         quad e2 = p.AA[0][0] * p.AA[1][1] - p.AA[0][1] * p.AA[0][1] + p.AA[0][0] * p.AA[2][2] - p.AA[0][2] * p.AA[0][2] + p.AA[1][1] * p.AA[2][2] - p.AA[1][2] * p.AA[1][2];
         bool nc = nposw >= 3 && e2 > (quad) 1e-6 * p.trA * p.trA;
         if (nc) c.label (LP_NONCOLLINEAR3);
+        if (doScale && N > 1 && p.trA > 0 && p.trA < (quad) 1e-16) c.label (LP_SCALING_TINY_SPREAD);
         c.nt (nc);
     }
     // ---- structure of the result: L = s*Q, Q a rotation
@@ -2500,7 +2664,7 @@ template <class T> static void procrustes_case (vp::Ctx& c)
         {
             quad d = qabs (G[j][k] - (j == k ? s2 : 0));
             if (!(d == d)) d = (quad) 1e300;
-            MEAS (TT<T>::off () + 24, "procrustes |L L^T - s^2 I| / (eps s^2)", s2 > 0 ? d / (epsd * s2) : d);
+            MEAS (TT<T>::off () + (scaled ? 96 : 0) + 24, "procrustes |L L^T - s^2 I| / (eps s^2)", s2 > 0 ? d / (epsd * s2) : d);
             VP_REQUIRE (c, d <= (quad) K_PROC_ORTHO * epsd * s2, doScale && N > 1 ? "procrustes/not-a-scaled-rotation" : "procrustes/not-a-rotation", "procrustes result " << mstr (X, 4) << ": (L L^T)[" << j << "][" << k << "] = " << qstr (G[j][k]) << (doScale && N > 1 ? " is not s^2*I" : " is not the identity (no scaling requested)"));
         }
     quad sx = sqrtq (s2), dL = det (L);
@@ -2525,7 +2689,7 @@ template <class T> static void procrustes_case (vp::Ctx& c)
     quad slack = slackQ + slackT + slackS + (quad) 1e-60 * (p.trB + s2 * p.trA);
     auto compare = [&] (const Q3& L2, const quad* t2, const char* key, const char* what) {
         quad f2 = pf (p, L2, t2);
-        MEAS (TT<T>::off () + 25, "procrustes (f(X)-f(X')) / slack", fX > f2 ? (fX - f2) / slack : (quad) 0);
+        MEAS (TT<T>::off () + (scaled ? 96 : 0) + 25, "procrustes (f(X)-f(X')) / slack", fX > f2 ? (fX - f2) / slack : (quad) 0);
         VP_REQUIRE (c, fX <= f2 + slack, key, "procrustes result " << mstr (X, 4) << " has weighted residual " << qstr (fX) << " but " << what << " achieves " << qstr (f2) << " (rounding allowance " << qstr (slack) << "); N=" << N << " doScaling=" << doScale);
     };
     {
@@ -2574,5 +2738,17 @@ VP_REQUIRE_LABELS (procrustes_f, C12_PROC_REQ)
 VP_RANDOM (procrustes_d, 150000, 3000000, C12_RULE_PROC) { procrustes_case<double> (c); }
 VP_LABELS (procrustes_d, LP_LABELS)
 VP_REQUIRE_LABELS (procrustes_d, C12_PROC_REQ)
+
+// Measured worst on the unchanged tree in the scaled mode (1.2e6 cases per type): (f(X)-f(X'))/slack 0.005 (float) 0.025 (double),
+// |L L^T - s^2 I| 18.4 / 17.9 eps(double) s^2 - the same as in the plain mode, as expected of a homogeneous problem
+// (limits K_PROC = 1, K_PROC_ORTHO = 96).
+#define C12_RULE_PROCSC "the problems of procrustes_* plus clouds of extent 2^-6..2^-16 (float) / 2^-40 (double) around a centre of magnitude <= 2, then every coordinate of both sets multiplied exactly by 2^k, k uniform in -60..60, and every weight by 2^j, j in -30..30 (the answer has the same rotation and scale and 2^k times the translation); oracle as procrustes_* on the scaled problem (weighted residual in quad against the generating transform with its translation scaled by 2^k, the optimal translation, perturbed rotations and scales); non-trivial = at least 3 weighted non-collinear points"
+#define C12_PROCSC_REQ C12_PROC_REQ, "small_extent_at_moderate_offset", "coordinates_scaled_by_2^-20_or_less", "coordinates_scaled_by_2^20_or_more", "weights_scaled_by_2^+-10_or_more", "doScaling_weighted_spread_of_A_below_1e-16"
+VP_RANDOM (procrustes_f_scaled, 60000, 1200000, C12_RULE_PROCSC) { procrustes_case<float> (c, true); }
+VP_LABELS (procrustes_f_scaled, LP_LABELS)
+VP_REQUIRE_LABELS (procrustes_f_scaled, C12_PROCSC_REQ)
+VP_RANDOM (procrustes_d_scaled, 60000, 1200000, C12_RULE_PROCSC) { procrustes_case<double> (c, true); }
+VP_LABELS (procrustes_d_scaled, LP_LABELS)
+VP_REQUIRE_LABELS (procrustes_d_scaled, C12_PROCSC_REQ)
 
 VP_MAIN ("C12")
